@@ -109,10 +109,10 @@ class FragCheck:
                     v["mechanism"] = None
                     v["classifier_error"] = traceback.format_exc()[-300:]
             out["violations"].append(v)
-        if len(out["samples"]) < 2 and case.execs and len(case.src) < 700:
+        if len(out["samples"]) < 2 and (case.execs or not self.want_execs) and len(case.src) < 900:
             out["samples"].append({"src": case.src, "features": case.features,
                                    "accepting_executions": len(case.execs),
-                                   "example_execution": frag.slim_exec(case.execs[0])})
+                                   "example_execution": frag.slim_exec(case.execs[0]) if case.execs else None})
 
     def reeval(self, prog, version, exec_slim):
         """Re-run tealer and the check on `prog` for one given input; returns {(kind, ckey)} of violations."""
